@@ -519,7 +519,9 @@ Section RT.
                   | _ => false
                   end) = false)
       by (destruct (jleaf var p) eqn:E; try reflexivity; exfalso; eapply Hnl; reflexivity).
-    rewrite Hn, Hs. cbn [gbind].
+    assert (Hid : (match jleaf var p with JList true l => JList false l | _ => jleaf var p end) = jleaf var p)
+      by (destruct (jleaf var p) as [| | | | |[|] l|] eqn:E; try reflexivity; exfalso; eapply Hnl; reflexivity).
+    rewrite Hn, Hid, Hs. cbn [gbind].
     unfold parse_var. rewrite Ht, Hd. reflexivity.
   Qed.
 
